@@ -134,6 +134,17 @@ Theorem C04_index_irrelevant : forall g keys ps xs ys a b c d,
 Proof. exact index_irrelevant_explicit. Qed.
 Print Assumptions C04_index_irrelevant.
 
+(* for EVERY key (boxes of zero extent and NaN ends included) the answer does not
+   depend on the index configuration: the correspondence check may therefore run the
+   model with the identity permutation instead of the index's private key array *)
+Theorem C04_index_config_irrelevant : forall g keys ps keys' ps' xs ys,
+  kind_ok g ->
+  Permutation keys (seq 0 (g_len g)) -> Permutation keys' (seq 0 (g_len g)) ->
+  cx_positions (build_sindex (new_obj g) keys ps) xs ys
+  = cx_positions (build_sindex (new_obj g) keys' ps') xs ys.
+Proof. exact index_config_irrelevant. Qed.
+Print Assumptions C04_index_config_irrelevant.
+
 (* the root box of the index is total_bounds (finite coordinates: every bounds
    row is all-finite or all-NaN; [g_even_outer]: elements span whole (x, y) pairs) *)
 Theorem C04_root_is_extent : forall g keys ps,
